@@ -33,12 +33,12 @@ func execRdRead(a []string) string {
 		if err != nil {
 			return "err"
 		}
-		r := bytes.NewReader(data)
+		r, left := newDataReader(data)
 		out, err := rd.Read(r)
 		if err != nil {
 			return "err"
 		}
-		return fmt.Sprintf("ok %s rest=%d", hx(out), r.Len())
+		return fmt.Sprintf("ok %s rest=%d", hx(out), left())
 	})
 }
 
@@ -89,7 +89,7 @@ func renderValue(v value.Value) string {
 func execValRead(a []string) string {
 	data := unhx(a[0])
 	return withTimeout(4*time.Second, func() string {
-		r := bytes.NewReader(data)
+		r, left := newDataReader(data)
 		v, err := value.NewValue(r)
 		if err != nil {
 			return "err"
@@ -98,7 +98,7 @@ func execValRead(a []string) string {
 		if err := v.Write(&b); err != nil {
 			return "err-write"
 		}
-		return fmt.Sprintf("ok %s rest=%d re=%s", renderValue(v), r.Len(), hx(b.Bytes()))
+		return fmt.Sprintf("ok %s rest=%d re=%s", renderValue(v), left(), hx(b.Bytes()))
 	})
 }
 
@@ -305,12 +305,12 @@ func execDecReflect(a []string) string {
 	data := unhx(a[1])
 	return withTimeout(4*time.Second, func() string {
 		p := reflect.New(goTypeOf(t))
-		r := bytes.NewReader(data)
+		r, left := newDataReader(data)
 		d := encoding.NewDecoder(encoding.DefaultCap(), r)
 		if err := d.Decode(p.Interface()); err != nil {
 			return "err"
 		}
-		return fmt.Sprintf("ok %s rest=%d", renderGoD(t, p.Elem()), r.Len())
+		return fmt.Sprintf("ok %s rest=%d", renderGoD(t, p.Elem()), left())
 	})
 }
 
@@ -539,6 +539,38 @@ func runC03(r *Rand, tier string, o *Out) {
 	for i := 0; i < n; i++ {
 		t := genCodecSig(r, 1+r.Intn(4), false)
 		c03Case(r, o, t)
+	}
+	// every string length up to 300 and the lengths around the powers of two: alone, in front of another
+	// member, between other strings (a helper that treats a window of lengths differently shows here)
+	var lens []int
+	for l := 0; l <= 300; l++ {
+		lens = append(lens, l)
+	}
+	for k := 9; k <= 16; k++ {
+		for d := -5; d <= 4; d++ {
+			lens = append(lens, 1<<uint(k)+d)
+		}
+	}
+	for idx, l := range lens {
+		str := make([]byte, l)
+		for j := range str {
+			str[j] = byte('a' + (j*7+l)%26)
+		}
+		num := func(n uint64) *tval { return &tval{kind: 'n', n: n} }
+		for shape := 0; shape < 3; shape++ {
+			if tier != "thorough" && shape != idx%3 {
+				continue
+			}
+			switch shape {
+			case 0:
+				c03CaseV(r, o, parseSigT("s"), &tval{kind: 's', s: str})
+			case 1:
+				c03CaseV(r, o, parseSigT("(sI)"), &tval{kind: '(', elems: []*tval{{kind: 's', s: str}, num(uint64(l))}})
+			default:
+				c03CaseV(r, o, parseSigT("[s]"), &tval{kind: '[', elems: []*tval{{kind: 's', s: []byte("x")}, {kind: 's', s: str}, {kind: 's', s: []byte("y")}}})
+			}
+			o.Count("case:string-length-sweep")
+		}
 	}
 	// long strings and long lists, around 64 KiB and its multiples, inside typed data
 	long := 6
